@@ -237,12 +237,13 @@ func c02TreeCase(rec *vk.Rec, builtin bool) func(t *rapid.T) {
 		addLevel(nil, 1, rapid.SampledFrom([]int{1, 2, 2, 3, 3, 4}).Draw(t, "topLevel"))
 
 		sysMax, defMax := c02ResList(1<<60, 1<<60), c02ResList(1<<60, 1<<60)
-		builtinMaxKind := "2^60"
+		builtinMaxKind := map[string]string{}
 		if builtin {
 			gen := func(label string) corev1.ResourceList {
-				switch rapid.SampledFrom([]string{"production", "production", "small", "small", "2^60"}).Draw(t, label+"Kind") {
-				case "production": // pkg/scheduler/apis/config/v1/defaults.go: MaxInt64/5 cores, MaxInt64/5 bytes
-					builtinMaxKind = "production-MaxInt64/5"
+				kind := rapid.SampledFrom([]string{"production-MaxInt64/5", "production-MaxInt64/5", "small", "small", "2^60"}).Draw(t, label+"Kind")
+				builtinMaxKind[label] = kind
+				switch kind {
+				case "production-MaxInt64/5": // pkg/scheduler/apis/config/v1/defaults.go: MaxInt64/5 cores, MaxInt64/5 bytes
 					return corev1.ResourceList{corev1.ResourceCPU: *resource.NewQuantity(math.MaxInt64/5, resource.DecimalSI),
 						corev1.ResourceMemory: *resource.NewQuantity(math.MaxInt64/5, resource.BinarySI)}
 				case "small":
@@ -573,7 +574,8 @@ func c02TreeCase(rec *vk.Rec, builtin bool) func(t *rapid.T) {
 					}
 				}
 			}
-			c.Class("builtin-max:" + builtinMaxKind)
+			c.Class("builtin-default-max:" + builtinMaxKind["defaultMax"])
+			c.Class("builtin-system-max:" + builtinMaxKind["systemMax"])
 			c.ClassIf(nb > 0, "builtin-group-has-pod")
 			c.ClassIf(nbAssigned > 0, "builtin-group-has-assigned-pod")
 			c.ClassIf(st.avail[0] < 0 || st.avail[1] < 0, "builtin-usage-exceeds-cluster-total")
